@@ -467,6 +467,13 @@ def _column(ex, base: Num, col: Num, rows, node):
     if j is not None and j < 0 and ncols is not None and ncols.as_const() is not None:
         j = int(ncols.as_const()) + j
         col = scalar_int(j)
+    # column j of the differences along the rows of a matrix: A[:, j+1] - A[:, j]
+    if a is not None and a.kind == "app" and a.args[0] == "diff" and len(a.args) >= 5 and a.args[4] in (1, -1) and isinstance(a.args[2], str) and isinstance(a.args[3], str) and j is not None and j >= 0:
+        src = base.meta.get("diff_of")
+        if isinstance(src, Num) and src.shape is not None and len(src.shape) == 2:
+            c1 = _column(ex, src, scalar_int(j + 1), rows, node)
+            c0 = _column(ex, src, scalar_int(j), rows, node)
+            return Num(c1.nf - c0.nf, (rows,) if rows is not None else None, base.dtype)
     r = ex.mk("col", ex.cur_nf(base), col.nf, shape=(rows,) if rows is not None else None, dtype=base.dtype)
     r.meta["col_of"] = base
     if base.arr is not None:
@@ -486,6 +493,9 @@ def colstack(ex, cols, node):
             raise Undecided("column_stack of a non-numeric value", node)
         nfs.append(ex.as_nf(c, node))
     dt = "int" if all(c.dtype == "int" for c in cols) else None
+    if len(cols) == 1 and rows is not None:
+        # a one-column matrix is its column (element-wise abstraction): A[:, [j]] is A[:, j] with shape (rows, 1)
+        return Num(nfs[0], (rows, NF.const(1)), dt or cols[0].dtype, meta={"cols": cols})
     r = ex.mk("colstack", tuple(nfs), shape=(rows, NF.const(len(cols))) if rows is not None else None, dtype=dt)
     r.meta["cols"] = cols
     return r
@@ -1274,6 +1284,13 @@ def _np_array(ex, args, kwargs, node):
         if all(isinstance(x, Num) and x.shape is not None and len(x.shape) == 1 for x in items) and len(items) == 1:
             x = items[0]
             return Num(x.nf, (NF.const(1),) + tuple(x.shape), dt or x.dtype)
+        if len(items) == 1 and isinstance(items[0], (ListV, TupleV)) and not getattr(items[0], "opaque", False) and items[0].items and all(isinstance(x, Num) and x.shape == () for x in items[0].items):
+            # np.array([[a, b, ...]]): one row - column j is the length-1 vector [x_j] (element-wise: x_j)
+            cols_ = [Num(ex.as_nf(x, node), (NF.const(1),), x.dtype) for x in items[0].items]
+            r = colstack(ex, cols_, node)
+            if dt is not None:
+                r = Num(r.nf, r.shape, dt, r.pytype, meta=dict(r.meta))
+            return r
         if all(isinstance(x, (ListV, TupleV)) for x in items):
             rows = [_np_array(ex, [x], {}, node) for x in items]
             r = ex.mk("rows", tuple(valkey(x) for x in rows), shape=(NF.const(len(rows)),) + tuple(rows[0].shape or ()), dtype=dt)
@@ -1298,6 +1315,21 @@ def _np_column_stack(ex, args, kwargs, node):
     if not isinstance(v, (TupleV, ListV)) or getattr(v, "opaque", False):
         raise Undecided("column_stack of an unknown sequence", node)
     return colstack(ex, [_arr(ex, x, node) for x in v.items], node)
+
+
+@model("numpy.stack")
+def _np_stack(ex, args, kwargs, node):
+    v = args[0]
+    ax = _kw(args, kwargs, 1, "axis", scalar_int(0))
+    axc = cint(ax) if isinstance(ax, Num) else None
+    if not isinstance(v, (TupleV, ListV)) or getattr(v, "opaque", False):
+        raise Undecided("stack of an unknown sequence", node)
+    parts = [_arr(ex, x, node) for x in v.items]
+    if axc in (1, -1) and all(p.shape is not None and len(p.shape) == 1 for p in parts):
+        # 1-D arrays stacked along axis 1 are the columns of a matrix: np.column_stack
+        return colstack(ex, parts, node)
+    r = ex.mk("stack", tuple(ex.as_nf(p, node) for p in parts), axc if axc is not None else "?", shape=None, dtype=None)
+    return r
 
 
 @model("numpy.concatenate")
